@@ -403,6 +403,7 @@ struct Options {
     std::string evidence;
     int gate_every = 8;
     bool no_minimise = false;
+    std::string hash_file;   // parent: write "<run index> <event-log hash>" per executed run (cross-process determinism check)
 };
 
 static int worker_main(const Scenario& sc, const Options& opt) {
@@ -696,6 +697,7 @@ static int parent_main(const Scenario& sc, const Options& opt) {
         if (ws[static_cast<std::size_t>(w)].pid < 0) { fprintf(stderr, "cannot spawn worker\n"); return 2; }
     }
 
+    FILE* hash_out = opt.hash_file.empty() ? nullptr : fopen(opt.hash_file.c_str(), "w");
     auto handle_line = [&](WorkerProc& w, const std::string& line) {
         if (line.size() < 2) return;
         std::stringstream ls(line.substr(2));
@@ -706,6 +708,7 @@ static int parent_main(const Scenario& sc, const Options& opt) {
                 std::uint64_t idx, lh, ph, sh, steps, sw; int nt; long long sim; std::size_t nops; std::string probes, faults, states;
                 ls >> idx >> lh >> ph >> sh >> nt >> steps >> sw >> sim >> nops >> probes >> faults >> states;
                 ++agg.evaluations;
+                if (hash_out) fprintf(hash_out, "%llu %llu\n", (unsigned long long)idx, (unsigned long long)lh);
                 agg.plan_hashes.insert(ph);
                 if (nt) agg.nontrivial_hashes.insert(ph);
                 agg.sched_hashes.insert(sh);
@@ -882,6 +885,7 @@ static int parent_main(const Scenario& sc, const Options& opt) {
         }
     }
 
+    if (hash_out) fclose(hash_out);
     // fresh-process replay of every reported violation
     int exit_code = 0;
     std::vector<std::string> out_lines;
@@ -1039,6 +1043,7 @@ int main(int argc, char** argv) {
         else if (a == "--evidence") opt.evidence = next();
         else if (a == "--gate-every") opt.gate_every = atoi(next().c_str());
         else if (a == "--no-minimise") opt.no_minimise = true;
+        else if (a == "--hash-file") opt.hash_file = next();
         else if (a == "--list") { for (auto& s : scenarios()) printf("%s %s\n", s.id.c_str(), s.world.c_str()); return 0; }
         else if (a[0] != '-') opt.prop = a;
     }
